@@ -140,6 +140,7 @@ infeasible("text", "UnicodeError?", "dns.name.from_text", "encode('ascii') is re
 infeasible("text", "UnicodeError?", "dns.name.IDNA2008Codec.encode", "encode('ascii') runs under is_all_ascii(label)", "label.encode('ascii')")
 infeasible("text", "ValueError", "dns.name.from_unicode", "total is at most 999 (three decimal digits): chr() cannot fail", "chr(total)")
 infeasible("text", "ValueError", "dns.tokenizer.Token.unescape*", "codepoint is tested <= 255 before chr()", "chr(codepoint)")
+infeasible("text", "AssertionError", "dns.rdata.from_text", "get_rdata_class(use_generic=True) always returns a class (GenericRdata fallback)", "assert cls is not None")
 infeasible("text", "AssertionError", "dns.message._TextReader.*", "self.message is assigned before any line is processed", "assert self.message is not None")
 infeasible("text", "AssertionError", "dns.tokenizer.Tokenizer.__init__", "filename defaults are assigned on every branch above", "assert filename is not None")
 infeasible("text", "AssertionError", "dns.zonefile.RRSetsReaderManager.writer", "read_rrsets always opens its manager with replacement=True", "assert replacement is True")
